@@ -942,6 +942,11 @@ class Evaluator(object):
             cname = self.prog.classes[r].name
             attrs = dict(kwargs)
             attrs["__args__"] = L(args)
+            # positional arguments are the constructor's parameters too (a call may spell them either way)
+            init_ = self.prog.mro_lookup(self.prog.classes[r], "__init__")
+            if init_ is not None:
+                for pn_, av_ in zip([x.arg for x in init_.node.args.args][1:], args):
+                    attrs.setdefault(pn_, av_)
             return Opaque(cname, attrs)
         if self.lenient:
             return Sym("opaque:" + dump(e)[:60])
